@@ -81,7 +81,7 @@ def tableLines (t : Tables) : List String :=
 def insertStr (x : String) : List String → List String
   | [] => [x]
   | y :: ys => if x ≤ y then x :: y :: ys else y :: insertStr x ys
-def sortStrs (l : List String) : List String := l.foldr insertStr []
+def sortStrs (l : List String) : List String := l.mergeSort (fun a b => decide (a ≤ b))
 
 def lookupModules : List String := ["pdrLookup|", "farLookup|", "appQERLookup|", "sessionQERLookup|"]
 def isLookup (s : String) : Bool := lookupModules.any (fun m => s.startsWith m)
@@ -111,7 +111,8 @@ def tableFindings (st : St) (obs : Json) (checkImage : Bool) (label : String) : 
     let tag := "," ++ toString seid
     (obsT.filter fun l => (l.splitOn (tag ++ ",")).length > 1 ∨ (l.splitOn (tag ++ "|")).length > 1 ∨ l.endsWith tag)
   let newRes := residue.filter (!st.seenResidue.contains ·)
-  let st' := { st with seenDiff := if checkImage then diffs else st.seenDiff, seenResidue := residue }
+  -- leftovers of a session are reported at the event that ends it; only the most recent endings are kept under watch
+  let st' := { st with seenDiff := if checkImage then diffs else st.seenDiff, seenResidue := residue, ended := st.ended.take 40 }
   (st',
    (if obsT != modT then [⟨"model", s!"{label}: tables differ from the model: {diffStr modT obsT}"⟩] else []) ++
    (if checkImage ∧ !newDiffs.isEmpty then
@@ -143,6 +144,7 @@ def qosFindings (pre : String) (cfg : Cfg) (tables : List String) (seid : Nat) (
         else if n 0 ≠ 0 then some ⟨"C09", pre ++ s!"QER {q.id} {dir}: open gate with a rate programmed as gate {n 0}"⟩
         else if gbr ≤ mbr ∧ n 2 ≠ mbr * 125 then some ⟨"C09", pre ++ s!"QER {q.id} {dir}: MBR {mbr} kbps programmed as peak rate {n 2} bytes/s, expected {mbr * 125}"⟩
         else if gbr ≤ mbr ∧ n 1 ≠ max (gbr * 125) 1 then some ⟨"C09", pre ++ s!"QER {q.id} {dir}: GBR {gbr} kbps programmed as committed rate {n 1} bytes/s"⟩
+        else if gbr > mbr then none   -- outside the statement's envelope (GBR ≤ MBR): correspondence with the model only
         else if n 3 < gbr * c.burstMs / 8 ∨ n 3 < c.cbs then some ⟨"C09", pre ++ s!"QER {q.id} {dir}: committed burst {n 3} below rate x duration {gbr * c.burstMs / 8} or the configured minimum {c.cbs}"⟩
         else if n 4 < mbr * c.burstMs / 8 ∨ n 4 < c.pbs then some ⟨"C09", pre ++ s!"QER {q.id} {dir}: peak burst {n 4} below rate x duration {mbr * c.burstMs / 8} or the configured minimum {c.pbs}"⟩
         else if n 5 < mbr * c.burstMs / 8 ∨ n 5 < c.ebs then some ⟨"C09", pre ++ s!"QER {q.id} {dir}: excess burst {n 5} below rate x duration {mbr * c.burstMs / 8} or the configured minimum {c.ebs}"⟩
